@@ -338,6 +338,32 @@ func c15Cow(p *Prog, r *Report, prefix string) {
 	planHosts, _, _ := planFields(p, plan)
 	fns := p.ScopedFuncs("proxycore")
 
+	// slices handed to listeners inside an event (the cluster's own host list in the bootstrap
+	// notification): the listeners keep them, so they are published as well
+	published := map[*types.Var]bool{}
+	for _, fn := range fns {
+		for _, lit := range structLits(fn, func(t types.Type) bool {
+			n := namedOf(t)
+			return n != nil && n.Obj().Pkg() != nil && n.Obj().Pkg().Path() == pkgPath("proxycore") && strings.HasSuffix(n.Obj().Name(), "Event")
+		}) {
+			for k, v := range lit {
+				if strings.HasPrefix(k, "\x00") || v == nil {
+					continue
+				}
+				if _, isSlice := v.Type().Underlying().(*types.Slice); !isSlice {
+					continue
+				}
+				for _, o := range origins(v) {
+					if f, base := loadedField(o); f != nil && base != nil {
+						if n := namedOf(base.Type()); n != nil && n.Obj().Pkg() != nil && n.Obj().Pkg().Path() == pkgPath("proxycore") {
+							published[f] = true
+						}
+					}
+				}
+			}
+		}
+	}
+	r.count("published_slice_fields", len(published))
 	// shared-slice taint: values loaded from the published atomic.Value or from a plan's hosts field
 	returnsShared := map[*ssa.Function]bool{}
 	isSharedRoot := func(v ssa.Value) bool {
@@ -353,6 +379,16 @@ func c15Cow(p *Prog, r *Report, prefix string) {
 			}
 		case *ssa.UnOp:
 			if f, _ := loadedField(x); f == planHosts {
+				return true
+			}
+		}
+		return false
+	}
+	// a field handed out in an event: writing into its backing array below its length (an element
+	// store, an append or copy to a re-slice of it) is seen by whoever kept the event's slice
+	isPublishedField := func(v ssa.Value) bool {
+		for _, o := range origins(v) {
+			if f, _ := loadedField(o); f != nil && published[f] {
 				return true
 			}
 		}
@@ -398,6 +434,9 @@ func c15Cow(p *Prog, r *Report, prefix string) {
 				if ia, ok := x.Addr.(*ssa.IndexAddr); ok && shared(ia.X, 0) {
 					bad = append(bad, p.Pos(x.Pos())+": element of the published host slice is overwritten in "+fn.Name())
 				}
+				if ia, ok := x.Addr.(*ssa.IndexAddr); ok && isPublishedField(ia.X) {
+					bad = append(bad, p.Pos(x.Pos())+": element of a host list that was handed to listeners in an event is overwritten in "+fn.Name())
+				}
 			case *ssa.Call:
 				if b, ok := x.Call.Value.(*ssa.Builtin); ok {
 					switch b.Name() {
@@ -406,10 +445,18 @@ func c15Cow(p *Prog, r *Report, prefix string) {
 						if shared(x.Call.Args[0], 0) {
 							bad = append(bad, p.Pos(x.Pos())+": append to the published host slice in "+fn.Name()+" (may write into the shared backing array)")
 						}
+						for _, o := range origins(x.Call.Args[0]) {
+							if sl, ok := o.(*ssa.Slice); ok && isPublishedField(sl.X) {
+								bad = append(bad, p.Pos(x.Pos())+": append to a re-slice of a host list that was handed to listeners in an event ("+fn.Name()+"): it overwrites the backing array the listeners, and the query plans made from it, still read")
+							}
+						}
 					case "copy":
 						sites++
 						if shared(x.Call.Args[0], 0) {
 							bad = append(bad, p.Pos(x.Pos())+": copy into the published host slice in "+fn.Name())
+						}
+						if isPublishedField(x.Call.Args[0]) {
+							bad = append(bad, p.Pos(x.Pos())+": copy into a host list that was handed to listeners in an event ("+fn.Name()+")")
 						}
 					}
 				}
@@ -464,77 +511,32 @@ func c15Cow(p *Prog, r *Report, prefix string) {
 		}
 		guarded := false
 		for _, oef := range withCallees(p, onEvent, 2) {
-		eachCall(oef, func(c ssa.CallInstruction) {
-			if !callIsMethod(c, "sync/atomic", "Value", "Store") {
-				return
-			}
-			for _, ct := range dominatingConds(c.Block()) {
-				bo, ok := ct.Cond.(*ssa.BinOp)
-				if !ok {
-					continue
+			eachCall(oef, func(c ssa.CallInstruction) {
+				if !callIsMethod(c, "sync/atomic", "Value", "Store") {
+					return
 				}
-				// `i >= 0` with i the result of a helper that searches the list for the host's key
-				if sc, isCall := bo.X.(*ssa.Call); isCall && sc.Call.StaticCallee() != nil && isKeySearch(p, sc.Call.StaticCallee()) {
-					k, isK := constInt(bo.Y)
-					found := isK && ((bo.Op == token.GEQ && k == 0 && ct.Truth) || (bo.Op == token.LSS && k == 0 && !ct.Truth) ||
-						(bo.Op == token.NEQ && k == -1 && ct.Truth) || (bo.Op == token.EQL && k == -1 && !ct.Truth) || (bo.Op == token.GTR && k == -1 && ct.Truth))
-					if found {
-						guarded = true
-						// the published slice omits exactly the found index
-						okShape := false
-						for _, o := range origins(c.Common().Args[1]) {
-							if ap, ok := o.(*ssa.Call); ok {
-								if b, ok := ap.Call.Value.(*ssa.Builtin); ok && b.Name() == "append" {
-									lo, ok1 := ap.Call.Args[0].(*ssa.Slice)
-									hi, ok2 := ap.Call.Args[1].(*ssa.Slice)
-									if ok1 && ok2 && lo.Low == nil && lo.High == ssa.Value(sc) && hi.High == nil {
-										if add, ok := hi.Low.(*ssa.BinOp); ok && add.Op == token.ADD && add.X == ssa.Value(sc) {
-											if one, ok := constInt(add.Y); ok && one == 1 {
-												okShape = true
-											}
-										}
-									}
-								}
-							}
-						}
-						if !okShape {
-							rb = append(rb, p.Pos(c.Pos())+": Remove does not publish s[:i] ++ s[i+1:] for the matched index i")
-						}
+				for _, ct := range dominatingConds(c.Block()) {
+					bo, ok := ct.Cond.(*ssa.BinOp)
+					if !ok {
 						continue
 					}
-				}
-				if !((bo.Op == token.EQL && ct.Truth) || (bo.Op == token.NEQ && !ct.Truth)) {
-					continue
-				}
-				xc, xok := bo.X.(*ssa.Call)
-				yc, yok := bo.Y.(*ssa.Call)
-				if xok && yok && xc.Call.StaticCallee() != nil && yc.Call.StaticCallee() != nil &&
-					xc.Call.StaticCallee().Name() == "Key" && yc.Call.StaticCallee().Name() == "Key" {
-					// one side from the event, the other from the ranged element
-					// one key belongs to an element of the ranged host slice, the other to the host being removed
-					fromEvt := func(cl *ssa.Call) bool {
-						for _, o := range origins(cl.Call.Args[0]) {
-							if ld, ok := o.(*ssa.UnOp); ok {
-								if _, isElem := ld.X.(*ssa.IndexAddr); isElem {
-									return false
-								}
-							}
-						}
-						return true
-					}
-					if fromEvt(xc) != fromEvt(yc) {
-						guarded = true
-						// and the published slice omits exactly the matched index: append(s[:i], s[i+1:]...)
-						if v := c.Common().Args[1]; true {
+					// `i >= 0` with i the result of a helper that searches the list for the host's key
+					if sc, isCall := bo.X.(*ssa.Call); isCall && sc.Call.StaticCallee() != nil && isKeySearch(p, sc.Call.StaticCallee()) {
+						k, isK := constInt(bo.Y)
+						found := isK && ((bo.Op == token.GEQ && k == 0 && ct.Truth) || (bo.Op == token.LSS && k == 0 && !ct.Truth) ||
+							(bo.Op == token.NEQ && k == -1 && ct.Truth) || (bo.Op == token.EQL && k == -1 && !ct.Truth) || (bo.Op == token.GTR && k == -1 && ct.Truth))
+						if found {
+							guarded = true
+							// the published slice omits exactly the found index
 							okShape := false
-							for _, o := range origins(v) {
+							for _, o := range origins(c.Common().Args[1]) {
 								if ap, ok := o.(*ssa.Call); ok {
 									if b, ok := ap.Call.Value.(*ssa.Builtin); ok && b.Name() == "append" {
 										lo, ok1 := ap.Call.Args[0].(*ssa.Slice)
 										hi, ok2 := ap.Call.Args[1].(*ssa.Slice)
-										if ok1 && ok2 && lo.Low == nil && lo.High != nil && hi.High == nil && hi.Low != nil {
-											if add, ok := hi.Low.(*ssa.BinOp); ok && add.Op == token.ADD && add.X == lo.High {
-												if k, ok := constInt(add.Y); ok && k == 1 {
+										if ok1 && ok2 && lo.Low == nil && lo.High == ssa.Value(sc) && hi.High == nil {
+											if add, ok := hi.Low.(*ssa.BinOp); ok && add.Op == token.ADD && add.X == ssa.Value(sc) {
+												if one, ok := constInt(add.Y); ok && one == 1 {
 													okShape = true
 												}
 											}
@@ -545,11 +547,56 @@ func c15Cow(p *Prog, r *Report, prefix string) {
 							if !okShape {
 								rb = append(rb, p.Pos(c.Pos())+": Remove does not publish s[:i] ++ s[i+1:] for the matched index i")
 							}
+							continue
+						}
+					}
+					if !((bo.Op == token.EQL && ct.Truth) || (bo.Op == token.NEQ && !ct.Truth)) {
+						continue
+					}
+					xc, xok := bo.X.(*ssa.Call)
+					yc, yok := bo.Y.(*ssa.Call)
+					if xok && yok && xc.Call.StaticCallee() != nil && yc.Call.StaticCallee() != nil &&
+						xc.Call.StaticCallee().Name() == "Key" && yc.Call.StaticCallee().Name() == "Key" {
+						// one side from the event, the other from the ranged element
+						// one key belongs to an element of the ranged host slice, the other to the host being removed
+						fromEvt := func(cl *ssa.Call) bool {
+							for _, o := range origins(cl.Call.Args[0]) {
+								if ld, ok := o.(*ssa.UnOp); ok {
+									if _, isElem := ld.X.(*ssa.IndexAddr); isElem {
+										return false
+									}
+								}
+							}
+							return true
+						}
+						if fromEvt(xc) != fromEvt(yc) {
+							guarded = true
+							// and the published slice omits exactly the matched index: append(s[:i], s[i+1:]...)
+							if v := c.Common().Args[1]; true {
+								okShape := false
+								for _, o := range origins(v) {
+									if ap, ok := o.(*ssa.Call); ok {
+										if b, ok := ap.Call.Value.(*ssa.Builtin); ok && b.Name() == "append" {
+											lo, ok1 := ap.Call.Args[0].(*ssa.Slice)
+											hi, ok2 := ap.Call.Args[1].(*ssa.Slice)
+											if ok1 && ok2 && lo.Low == nil && lo.High != nil && hi.High == nil && hi.Low != nil {
+												if add, ok := hi.Low.(*ssa.BinOp); ok && add.Op == token.ADD && add.X == lo.High {
+													if k, ok := constInt(add.Y); ok && k == 1 {
+														okShape = true
+													}
+												}
+											}
+										}
+									}
+								}
+								if !okShape {
+									rb = append(rb, p.Pos(c.Pos())+": Remove does not publish s[:i] ++ s[i+1:] for the matched index i")
+								}
+							}
 						}
 					}
 				}
-			}
-		})
+			})
 		}
 		if !guarded {
 			rb = append(rb, "no publication guarded by `host.Key() == evt.Host.Key()`: Remove does not drop the matching host")
